@@ -163,6 +163,35 @@ pub struct CvarSpec {
     pub shared: Option<SharedSpec>,
 }
 
+/// Structure of the horizontal metrics.
+/// mode 0: advances drawn independently;
+/// 1: monospaced — every glyph has the same advance and the same advance deltas;
+/// 2: the last k ≥ 2 glyphs share one advance (possibly 0) and identical advance deltas;
+/// 3: the last k glyphs share one advance in the default master only (independent deltas);
+/// 4: the last k glyphs differ in the default master but their advances coincide at the peak of
+///    `region` (which is added to the tested locations).
+#[derive(Clone, Debug)]
+pub struct MetricSpec {
+    pub mode: u8,
+    pub k: u8,
+    pub zero: bool,
+    pub region: Vec<AxisRegSpec>,
+    pub d1: i16,
+    pub d2: i16,
+}
+
+fn metric_spec() -> impl Strategy<Value = MetricSpec> {
+    (
+        prop_oneof![6 => Just(0u8), 1 => Just(1u8), 2 => Just(2u8), 1 => Just(3u8), 2 => Just(4u8)],
+        any::<u8>(),
+        proptest::bool::weighted(0.25),
+        proptest::collection::vec(axis_reg(), 3),
+        -120i16..=120,
+        -120i16..=120,
+    )
+        .prop_map(|(mode, k, zero, region, d1, d2)| MetricSpec { mode, k, zero, region, d1, d2 })
+}
+
 #[derive(Clone, Debug)]
 pub struct CoordSpec {
     pub kind: u8,
@@ -182,6 +211,8 @@ pub struct Case {
     pub long_gvar: bool,
     pub long_loca: bool,
     pub short_hmtx: bool,
+    /// structure of the advance widths (monospaced, equal tails, ...)
+    pub metric: MetricSpec,
     pub extra_shared_tuples: u8,
     pub enc_seed: u64,
     /// keep `AxisRegSpec::Invalid` axes (otherwise they are replaced by valid ones)
@@ -410,9 +441,9 @@ pub fn case_strategy() -> impl Strategy<Value = Case> {
         proptest::option::weighted(0.5, hvar_spec()),
         (proptest::option::weighted(0.4, mvar_spec()), proptest::option::weighted(0.25, cvar_spec())),
         proptest::collection::vec(proptest::collection::vec(coord_spec(), 3), 5),
-        (any::<bool>(), any::<bool>(), proptest::bool::weighted(0.3), 0u8..3, any::<u64>(), proptest::bool::weighted(0.1)),
+        (any::<bool>(), any::<bool>(), proptest::bool::weighted(0.3), 0u8..3, any::<u64>(), proptest::bool::weighted(0.1), metric_spec()),
     )
-        .prop_map(|(axes, with_avar, glyphs, hvar, (mvar, cvar), coords, (long_gvar, long_loca, short_hmtx, extra_shared_tuples, enc_seed, invalid_regions))| Case {
+        .prop_map(|(axes, with_avar, glyphs, hvar, (mvar, cvar), coords, (long_gvar, long_loca, short_hmtx, extra_shared_tuples, enc_seed, invalid_regions, metric))| Case {
             axes,
             with_avar,
             glyphs,
@@ -423,6 +454,7 @@ pub fn case_strategy() -> impl Strategy<Value = Case> {
             long_gvar,
             long_loca,
             short_hmtx,
+            metric,
             extra_shared_tuples,
             enc_seed,
             invalid_regions,
@@ -475,6 +507,11 @@ struct Model {
 
 struct Built {
     font: Vec<u8>,
+    /// user tuples (raw 16.16) tested in addition to those of the case
+    extra_users: Vec<Vec<i32>>,
+    /// effective metric mode and long metric count of the source
+    metric_mode: u8,
+    num_h_metrics: u16,
     model: Model,
     axes: Vec<AxisModel>,
     stats: EncStats,
@@ -848,12 +885,48 @@ fn build(case: &Case) -> Built {
         let m = &mut glyphs[gi];
         m.lsb = if m.kind == Kind::Empty { 0 } else { m.bbox.0 - g.pp1 };
     }
-    if case.short_hmtx && glyphs.len() >= 2 {
-        // trailing glyphs share the advance of the last long metric
-        let n = glyphs.len();
-        let a = glyphs[n - 2].advance;
-        glyphs[n - 1].advance = a;
+    // metric structure
+    let ng = glyphs.len();
+    let ms = &case.metric;
+    let metric_mode = if ng >= 2 { ms.mode } else { 0 };
+    let tail_k = match metric_mode {
+        0 => 0,
+        1 => ng,
+        _ => 2 + (ms.k as usize % (ng - 1)),
+    };
+    let tail_start = ng - tail_k;
+    // glyphs whose advance deltas are dictated by the metric structure
+    let locked = |gi: usize| matches!(metric_mode, 1 | 2 | 4) && gi >= tail_start;
+    let zero_tail = metric_mode == 2 && ms.zero;
+    match metric_mode {
+        1 | 2 | 3 => {
+            let a = if zero_tail { 0 } else { glyphs[tail_start].advance };
+            for g in glyphs[tail_start..].iter_mut() {
+                g.advance = a;
+            }
+        }
+        4 => {
+            for (j, g) in glyphs[tail_start..].iter_mut().enumerate() {
+                g.advance += 7 * j as u16;
+            }
+        }
+        _ => {}
     }
+    let mut num_h_metrics = ng as u16;
+    if case.short_hmtx && ng >= 2 {
+        match metric_mode {
+            0 => {
+                // trailing glyphs share the advance of the last long metric
+                let a = glyphs[ng - 2].advance;
+                glyphs[ng - 1].advance = a;
+                num_h_metrics = (ng - 1) as u16;
+            }
+            1 | 2 | 3 => num_h_metrics = (ng - tail_k + 1) as u16,
+            _ => {}
+        }
+    }
+    let metric_region = resolve_region(&ms.region, n_axes, false);
+    let metric_target = glyphs[tail_start..].iter().map(|g| g.advance).max().unwrap_or(0) as i32 + (ms.d2.unsigned_abs() % 60) as i32;
 
     // ---- tuple variations
     let mut all_regions: Vec<Region> = Vec::new();
@@ -885,6 +958,23 @@ fn build(case: &Case) -> Built {
                     })
                     .collect(),
             };
+            let mut deltas = deltas;
+            if locked(gi) {
+                // the advance of this glyph varies only through the shared metric tuple below
+                match &points {
+                    None => {
+                        deltas[n].0 = 0;
+                        deltas[n + 1].0 = 0;
+                    }
+                    Some(ps) => {
+                        for (j, p) in ps.iter().enumerate() {
+                            if *p as usize == n || *p as usize == n + 1 {
+                                deltas[j].0 = 0;
+                            }
+                        }
+                    }
+                }
+            }
             let var = TupleVar { region: region.clone(), points, deltas };
             if !all_regions.contains(&region) {
                 all_regions.push(region.clone());
@@ -897,6 +987,21 @@ fn build(case: &Case) -> Built {
             }
             any_shared_use |= use_shared;
             enc.tuples.push(TupleEnc { var: var.clone(), intermediate: t.explicit_inter, share_peak: t.share_peak, use_shared_points: use_shared });
+            glyphs[gi].tuples.push(var);
+        }
+        if locked(gi) {
+            let d: Vec<(i16, i16)> = if metric_mode == 4 {
+                vec![(0, 0), ((metric_target - glyphs[gi].advance as i32) as i16, 0)]
+            } else if zero_tail {
+                vec![(ms.d1, 0), (ms.d1, 0)]
+            } else {
+                vec![(ms.d1, 0), (ms.d2, 0)]
+            };
+            let var = TupleVar { region: metric_region.clone(), points: Some(vec![n as u16, (n + 1) as u16]), deltas: d };
+            if !all_regions.contains(&metric_region) {
+                all_regions.push(metric_region.clone());
+            }
+            enc.tuples.push(TupleEnc { var: var.clone(), intermediate: false, share_peak: false, use_shared_points: false });
             glyphs[gi].tuples.push(var);
         }
         // the shared point data is written when a tuple uses it, and sometimes although none does
@@ -917,7 +1022,12 @@ fn build(case: &Case) -> Built {
     let gvar = gvar_table(n_axes, &encs, &shared_peak_pool, case.long_gvar, &mut ch, &mut stats);
 
     // ---- fvar / avar
-    let (axes, fvar, avar) = axes_tables(&case.axes, case.with_avar);
+    // (mode 4 needs the peak of the metric region to be hit exactly: no avar then)
+    let (axes, fvar, avar) = axes_tables(&case.axes, case.with_avar && metric_mode != 4);
+    let mut extra_users: Vec<Vec<i32>> = Vec::new();
+    if metric_mode == 4 {
+        extra_users.push(axes.iter().zip(metric_region.iter()).map(|(a, r)| user_from_norm(a, r.peak)).collect());
+    }
 
     // ---- HVAR, consistent with the phantom point deltas of gvar
     let mut hvar_model = None;
@@ -1013,7 +1123,7 @@ fn build(case: &Case) -> Built {
     let mut f = BasicFont::with_glyphs(n as u16);
     f.glyph_records = glyphs.iter().map(|g| g.record.clone()).collect();
     f.metrics = glyphs.iter().map(|g| (g.advance, g.lsb)).collect();
-    f.num_h_metrics = if case.short_hmtx && n >= 2 { (n - 1) as u16 } else { n as u16 };
+    f.num_h_metrics = num_h_metrics;
     f.long_loca = case.long_loca;
     f.cmap = BTreeMap::new();
     for g in 0..n.min(26) {
@@ -1044,6 +1154,9 @@ fn build(case: &Case) -> Built {
     }
     Built {
         font: f.build(),
+        extra_users,
+        metric_mode,
+        num_h_metrics,
         model: Model { glyphs, hvar: hvar_model, hvar_consistent: true, hvar_lsb_mapped, mvar: mvar_model, cvt: cvt_model },
         axes,
         stats,
@@ -1055,6 +1168,24 @@ fn build(case: &Case) -> Built {
 
 fn fail(sig: &str, msg: String) -> Fail {
     Fail::new(format!("C12:{}", sig), msg)
+}
+
+/// user-space value (raw 16.16) whose default normalisation is the raw 2.14 value `n`
+fn user_from_norm(ax: &AxisModel, n: i16) -> i32 {
+    let (min, def, max) = (ax.min as i64, ax.default as i64, ax.max as i64);
+    let v = if n < 0 { def + n as i64 * (def - min) / 16384 } else { def + n as i64 * (max - def) / 16384 };
+    v.clamp(i32::MIN as i64, i32::MAX as i64) as i32
+}
+
+/// The user tuples a generated font is instanced at: the default, those of the case, and the
+/// locations the metric structure asks for.
+fn users_of(case: &Case, b: &Built) -> Vec<Vec<i32>> {
+    let mut users: Vec<Vec<i32>> = vec![b.axes.iter().map(|a| a.default).collect()];
+    for cs in &case.coords {
+        users.push(b.axes.iter().enumerate().map(|(i, a)| user_value(&cs[i], a, i, &b.all_regions)).collect());
+    }
+    users.extend(b.extra_users.iter().cloned());
+    users
 }
 
 fn user_value(spec: &CoordSpec, ax: &AxisModel, axis_index: usize, regions: &[Region]) -> i32 {
@@ -1102,6 +1233,18 @@ fn user_value(spec: &CoordSpec, ax: &AxisModel, axis_index: usize, regions: &[Re
 
 fn check_instance(b: &Model, src: &ParsedFont, src_fields: &[([u8; 4], i32)], out_bytes: &[u8], loc: &[i16], rec: &mut Rec, agg: &mut Agg) -> CaseResult {
     let at_default = loc.iter().all(|v| *v == 0);
+    {
+        // hmtx must have exactly the length the instance's own hhea / maxp require
+        let nhm = find_table(out_bytes, b"hhea").and_then(|h| be16(h, 34)).unwrap_or(0) as usize;
+        let n = find_table(out_bytes, b"maxp").and_then(|h| be16(h, 4)).unwrap_or(0) as usize;
+        let len = find_table(out_bytes, b"hmtx").map(|h| h.len()).unwrap_or(0);
+        if nhm > n || (nhm == 0 && n > 0) || len != 4 * nhm + 2 * (n - nhm.min(n)) {
+            return Err(fail(
+                "hmtx-length-vs-numberOfHMetrics",
+                format!("at {:?}: the instance's hhea.numberOfHMetrics is {} and maxp.numGlyphs {} but its hmtx table has {} bytes ({} required)", loc, nhm, n, len, 4 * nhm + 2 * (n - nhm.min(n))),
+            ));
+        }
+    }
     let out = read_font(out_bytes).map_err(|e| fail("output-unreadable", format!("instanced font not readable by the independent reader: {}", e)))?;
     // static: no variation tables
     for t in &out.tags {
@@ -1273,6 +1416,10 @@ fn check_instance(b: &Model, src: &ParsedFont, src_fields: &[([u8; 4], i32)], ou
                         return Err(fail("phantom-pp2", ctx(&format!("xMin - lsb + advance = {} but phantom point 2 moves to {:.4}", pp1_o + adv_o as f64, pp2_ref))));
                     }
                 } else {
+                    // allsorts clamps at 0
+                    if adv_o as f64 > adv_ref.max(0.0) + TOL {
+                        return Err(fail("advance-phantom", ctx(&format!("advance {} but phantom points give {:.4} (clamped at 0)", adv_o, adv_ref))));
+                    }
                     agg.skipped_negative_advance += 1;
                 }
                 let lsb_assertable = g.kind != Kind::Empty || ev.deltas[n].0 == 0.0;
@@ -1320,6 +1467,21 @@ fn check_instance(b: &Model, src: &ParsedFont, src_fields: &[([u8; 4], i32)], ou
             if (lsb_o as f64 - lsb_ref).abs() > TOL {
                 return Err(fail("lsb", ctx(&format!("lsb {} but the reference outline's xMin {:.4} minus phantom point 1 {:.4} is {:.4}", lsb_o, xmin_ref, pp1_ref, lsb_ref))));
             }
+        }
+    }
+    {
+        let m = &out.metrics;
+        if m.len() >= 2 && m[m.len() - 1].0 == m[m.len() - 2].0 {
+            agg.tail_equal |= true;
+            agg.tail_equal_off_default |= !at_default;
+            if m.iter().all(|x| x.0 == m[0].0) {
+                agg.all_equal |= true;
+            }
+            if m[m.len() - 1].0 == 0 {
+                agg.tail_zero |= true;
+            }
+        } else if m.len() >= 2 {
+            agg.tail_differs |= true;
         }
     }
     if out.advance_width_max != max_adv {
@@ -1419,6 +1581,12 @@ struct Agg {
     lsb_from_hvar: u32,
     mvar_checked: u32,
     cvt_checked: bool,
+    /// the instance's last two advances are equal (somewhere / away from the default / all / 0)
+    tail_equal: bool,
+    tail_equal_off_default: bool,
+    all_equal: bool,
+    tail_zero: bool,
+    tail_differs: bool,
     /// a failure attributed to a known finding by its defect model: reported only if nothing
     /// else fails in the case, so that the search continues behind the finding
     deferred: Option<Fail>,
@@ -1428,10 +1596,7 @@ struct Agg {
 /// (raw 16.16 values, first = the default location) that C12 instances it at.
 pub fn generated_font_and_users(case: &Case) -> (Vec<u8>, Vec<Vec<i32>>) {
     let b = build(case);
-    let mut users: Vec<Vec<i32>> = vec![b.axes.iter().map(|a| a.default).collect()];
-    for cs in &case.coords {
-        users.push(b.axes.iter().enumerate().map(|(i, a)| user_value(&cs[i], a, i, &b.all_regions)).collect());
-    }
+    let users = users_of(case, &b);
     (b.font, users)
 }
 
@@ -1460,10 +1625,7 @@ fn check_case_built(case: &Case, b: &Built, rec: &mut Rec) -> CaseResult {
     let fd = ReadScope::new(&b.font).read::<FontData<'_>>().map_err(|e| fail("source-not-loadable", format!("{:?}", e)))?;
     let prov = fd.table_provider(0).map_err(|e| fail("source-not-loadable", format!("{:?}", e)))?;
     let mut agg = Agg::default();
-    let mut users: Vec<Vec<i32>> = vec![b.axes.iter().map(|a| a.default).collect()];
-    for cs in &case.coords {
-        users.push(b.axes.iter().enumerate().map(|(i, a)| user_value(&cs[i], a, i, &b.all_regions)).collect());
-    }
+    let users = users_of(case, b);
     let mut locs: Vec<Vec<i16>> = Vec::new();
     for (ui, user) in users.iter().enumerate() {
         let tuple: Vec<Fixed> = user.iter().map(|v| Fixed::from_raw(*v)).collect();
@@ -1540,7 +1702,13 @@ fn check_case_built(case: &Case, b: &Built, rec: &mut Rec) -> CaseResult {
     rec.class_if(agg.mvar_checked > 0, "MVAR-field-checked");
     rec.class_if(agg.cvt_checked, "cvar");
     rec.class_if(agg.skipped_negative_advance > 0, "skipped:advance<1");
-    rec.class_if(case.short_hmtx, "hmtx-short-tail");
+    rec.class_if(b.num_h_metrics < b.model.glyphs.len() as u16, "hmtx-short-tail");
+    rec.class(&format!("metric-mode:{}", b.metric_mode));
+    rec.class_if(agg.tail_equal, "instance-tail-equal-advances");
+    rec.class_if(agg.tail_equal_off_default, "instance-tail-equal-advances-off-default");
+    rec.class_if(agg.tail_equal && agg.tail_differs, "instance-tail-equal-at-some-locations-only");
+    rec.class_if(agg.all_equal, "instance-monospaced");
+    rec.class_if(agg.tail_zero, "instance-zero-width-tail");
     rec.hash_bytes(&b.font);
     rec.sample(|| {
         format!(
@@ -1978,6 +2146,15 @@ fn check_cff2_instance(e: &Cff2Expect<'_>, out_bytes: &[u8], loc: &[i16], agg: &
     if om.len() != e.src_metrics.len() {
         return Err(fail("glyph-count", format!("hmtx has {} entries, source {}", om.len(), e.src_metrics.len())));
     }
+    if om.len() >= 2 {
+        if om[om.len() - 1].0 == om[om.len() - 2].0 {
+            agg.tail_equal = true;
+            agg.tail_equal_off_default |= !loc.iter().all(|v| *v == 0);
+            agg.tail_zero |= om[om.len() - 1].0 == 0;
+        } else {
+            agg.tail_differs = true;
+        }
+    }
     for (g, ((adv_o, lsb_o), (adv_s, lsb_s))) in om.iter().zip(e.src_metrics.iter()).enumerate() {
         match e.hvar {
             None => {
@@ -1990,6 +2167,9 @@ fn check_cff2_instance(e: &Cff2Expect<'_>, out_bytes: &[u8], loc: &[i16], agg: &
                 let r = *adv_s as f64 + d;
                 if at_default && (adv_o != adv_s || lsb_o != lsb_s) {
                     return Err(fail("default-metrics", format!("glyph {}: default instance has advance {} lsb {}, source {} {}", g, adv_o, lsb_o, adv_s, lsb_s)));
+                }
+                if r < 1.0 && *adv_o as f64 > r.max(0.0) + TOL {
+                    return Err(fail("advance-hvar", format!("glyph {} at {:?}: advance {} but HVAR gives {:.4} (clamped at 0)", g, loc, adv_o, r)));
                 }
                 if r >= 1.0 && (*adv_o as f64 - r).abs() > TOL {
                     return Err(fail("advance-hvar", format!("glyph {} at {:?}: advance {} but HVAR gives {:.4} = {} + {:.4}; advance map {:?}", g, loc, adv_o, r, adv_s, d, h.adv_map)));
@@ -2055,7 +2235,8 @@ pub fn check_cff2_case(case: &Cff2Case, rec: &mut Rec) -> CaseResult {
     let b = c18::build(&case.cs);
     let vs = b.vstore.as_ref().expect("variable C18 case has a VariationStore");
     let n_axes = case.axes.len();
-    let (axes, fvar, avar) = axes_tables(&case.axes, case.with_avar);
+    let cff2_mode4 = b.glyphs.len() >= 2 && (case.hmtx_seed >> 1) % 8 == 7;
+    let (axes, fvar, avar) = axes_tables(&case.axes, case.with_avar && !cff2_mode4);
     let vs_regions: Vec<Region> = vs.regions.iter().map(|r| vs_region(r, n_axes)).collect();
     let mut all_regions = vs_regions.clone();
     // a region whose peaks are all zero applies (scalar 1) everywhere, the default location
@@ -2067,11 +2248,40 @@ pub fn check_cff2_case(case: &Cff2Case, rec: &mut Rec) -> CaseResult {
         let h = mix64(((case.hmtx_seed as u64) << 8) ^ g as u64);
         (200 + (h % 900) as u16, ((h >> 16) % 121) as i16 - 60)
     }).collect();
-    let short_tail = case.hmtx_seed & 1 == 1 && n >= 2;
-    if short_tail {
-        metrics[n - 1].0 = metrics[n - 2].0;
+    // metric structure (see MetricSpec): 0 independent, 1 monospaced, 2 equal tail with equal
+    // deltas (possibly zero width), 3 equal tail at the default only, 4 equal at one location
+    let metric_mode: u8 = if n >= 2 { [0u8, 0, 0, 0, 1, 2, 3, 4][((case.hmtx_seed >> 1) % 8) as usize] } else { 0 };
+    let tail_k = match metric_mode {
+        0 => 0,
+        1 => n,
+        _ => 2 + ((case.hmtx_seed >> 8) as usize % (n - 1)),
+    };
+    let tail_start = n - tail_k;
+    let zero_tail = metric_mode == 2 && (case.hmtx_seed >> 16) & 3 == 0;
+    if matches!(metric_mode, 1 | 2 | 3) {
+        let a = if zero_tail { 0 } else { metrics[tail_start].0 };
+        for m in metrics[tail_start..].iter_mut() {
+            m.0 = a;
+        }
     }
-    let nhm = if short_tail { (n - 1) as u16 } else { n as u16 };
+    if metric_mode == 4 {
+        for (j, m) in metrics[tail_start..].iter_mut().enumerate() {
+            m.0 += 7 * j as u16;
+        }
+    }
+    let want_short = case.hmtx_seed & 1 == 1 && n >= 2;
+    let mut nhm = n as u16;
+    if want_short {
+        match metric_mode {
+            0 => {
+                metrics[n - 1].0 = metrics[n - 2].0;
+                nhm = (n - 1) as u16;
+            }
+            1 | 2 | 3 => nhm = (n - tail_k + 1) as u16,
+            _ => {}
+        }
+    }
+    let short_tail = (nhm as usize) < n;
     let adv_max = metrics.iter().map(|m| m.0).max().unwrap_or(0);
     let mut extra: Vec<([u8; 4], Vec<u8>)> = vec![
         (*b"fvar", fvar),
@@ -2082,6 +2292,7 @@ pub fn check_cff2_case(case: &Cff2Case, rec: &mut Rec) -> CaseResult {
         extra.push((*b"avar", a));
     }
     let mut hvar_model = None;
+    let mut extra_users: Vec<Vec<i32>> = Vec::new();
     if let Some(h) = &case.hvar {
         let mut uniq: Vec<Region> = Vec::new();
         for r in vs_regions.iter().filter(|r| r.iter().any(|a| a.peak != 0)).cloned() {
@@ -2095,12 +2306,30 @@ pub fn check_cff2_case(case: &Cff2Case, rec: &mut Rec) -> CaseResult {
                 uniq.push(r);
             }
         }
-        let rows: Vec<Vec<i32>> = (0..n)
+        let mut rows: Vec<Vec<i32>> = (0..n)
             .map(|g| (0..uniq.len()).map(|r| {
                 let hh = mix64(((h.seed as u64) << 20) ^ ((g * 17 + r) as u64));
                 if hh & 7 == 0 { (hh >> 8) as i32 % 400 - 200 } else { (hh >> 8) as i32 % 100 - 50 }
             }).collect())
             .collect();
+        match metric_mode {
+            1 | 2 => {
+                let shared: Vec<i32> = if zero_tail { vec![0; uniq.len()] } else { rows[tail_start].clone() };
+                for r in rows[tail_start..].iter_mut() {
+                    *r = shared.clone();
+                }
+            }
+            4 => {
+                // the advances of the tail coincide at the peak of region 0
+                let target = metrics[tail_start..].iter().map(|m| m.0).max().unwrap_or(0) as i32 + (h.seed % 60) as i32;
+                for g in tail_start..n {
+                    rows[g] = vec![0; uniq.len()];
+                    rows[g][0] = target - metrics[g].0 as i32;
+                }
+                extra_users.push(axes.iter().zip(uniq[0].iter()).map(|(a, r)| user_from_norm(a, r.peak)).collect());
+            }
+            _ => {}
+        }
         for r in &uniq {
             if !all_regions.contains(r) {
                 all_regions.push(r.clone());
@@ -2137,6 +2366,7 @@ pub fn check_cff2_case(case: &Cff2Case, rec: &mut Rec) -> CaseResult {
     for cs in &case.coords {
         users.push(axes.iter().enumerate().map(|(i, a)| user_value(&cs[i], a, i, &all_regions)).collect());
     }
+    users.extend(extra_users.iter().cloned());
     let mut agg = Agg::default();
     let mut frac = false;
     let mut multi_axis = false;
@@ -2208,6 +2438,11 @@ pub fn check_cff2_case(case: &Cff2Case, rec: &mut Rec) -> CaseResult {
     rec.class_if(agg.lsb_from_hvar > 0, "cff2:HVAR-lsb-map");
     rec.class_if(agg.mvar_checked > 0, "cff2:MVAR-field-checked");
     rec.class_if(short_tail, "cff2:hmtx-short-tail");
+    rec.class(&format!("cff2:metric-mode:{}", metric_mode));
+    rec.class_if(agg.tail_equal && hvar_model.is_some(), "cff2:instance-tail-equal-advances (HVAR)");
+    rec.class_if(agg.tail_equal_off_default && hvar_model.is_some(), "cff2:instance-tail-equal-advances-off-default (HVAR)");
+    rec.class_if(agg.tail_equal && agg.tail_differs, "cff2:instance-tail-equal-at-some-locations-only");
+    rec.class_if(agg.tail_zero, "cff2:instance-zero-width-tail");
     rec.class_if(always_on, "cff2:region-all-peaks-zero");
     if let Some(f) = agg.deferred.take() {
         return Err(f);
